@@ -100,6 +100,9 @@ def run_unit(args):
                         r["replay_result"] = _jsonable(rr)
                 except Exception as e:
                     r["native_crosscheck"] = f"replay crashed: {type(e).__name__}: {str(e)[:200]}"
+                    if os.environ.get("LVC_SELFTEST_REPLAYS"):   # developer mode: a crashing replay route is a defect of the machinery
+                        r["status"] = "error"
+                        r["reason"] = "native replay route crashed on the unchanged tree: " + r["native_crosscheck"]
             out["results"].append(_jsonable(dict(r)))
         out["functions"] = sorted(S.functions)
         out["assumed"] = sorted(S.assumed)
